@@ -7,13 +7,14 @@ EXTENDS SerifTable, TLC, Json
 CONSTANTS Suite
 VARIABLE c
 NamesT == {"a", "b", NoNameT}
+ArithNamesT == {"a", "A", "a ", "b", NoNameT}      \* incl. names that differ only by case / blanks: "equal" means equal STORED names
 ColKindsT == {"int", "float", "str"}
 ValTags == {"int", "float", "str", "none"}
 Init ==
   \/ (Suite = "select" /\ \E w \in 1..3, k \in 1..2 : \E names \in [1..w -> NamesT], req \in [1..k -> {"a", "b", "zz"}] :
         c = [suite |-> "select", names |-> names, req |-> req, ok |-> SelectOk(names, req),
              idx |-> IF SelectOk(names, req) THEN SelectCols(names, req) ELSE <<>>])
-  \/ (Suite = "arith" /\ \E lw \in 1..2, rw \in 0..2 : \E ln \in [1..lw -> NamesT], rn \in [1..rw -> NamesT] :
+  \/ (Suite = "arith" /\ \E lw \in 1..2, rw \in 0..2 : \E ln \in [1..lw -> ArithNamesT], rn \in [1..rw -> ArithNamesT] :
         c = [suite |-> "arith", lnames |-> ln, rnames |-> rn, scalar |-> rw = 0,
              ok |-> (rw = 0 \/ ArithOk(lw, rw)),
              names |-> IF rw = 0 THEN ArithNameScalar(ln) ELSE IF ArithOk(lw, rw) THEN ArithNames(ln, rn) ELSE <<>>])
